@@ -151,6 +151,23 @@ def run(ctx):
             raise MachineryError('retention batch violates %s with all traces consumed' % inv)
     ctx.stage('retention-traces', validated=ctx.cov['traces_validated_against_impl'])
     ctx.sample({'retention_trace': {'fmt': sel[0][0]['fmt'], 'ev': sel[0][0]['ev'][:3]}, 'case': sel[0][1]})
+    # C2. the repository's own inspector tests as workloads (vf.repo_recorder wraps FileInspector.eat_chunk from outside)
+    from vf import repo_traces
+    rec = repo_traces.record(ctx, ['oslo_utils/tests/imageutils'], 'retention', 'ret')
+    rtr = rec['retention']
+    if rtr:
+        rejected, inv, r = traces.validate(ctx, 'Trace_Retention', rtr, 'repo')
+        ctx.tlc(r, 'Trace_Retention on traces recorded from the repository\'s own tests', counts_as_states=False)
+        ctx.cov['traces_validated_against_impl'] += len(rtr) - len(rejected)
+        for i in sorted(rejected)[:5]:
+            at, inv1 = traces.diagnose(ctx, 'Trace_Retention', rtr[i])
+            ctx.violation({'kind': 'repo-test-retention-trace', 'fmt': rtr[i]['fmt']},
+                          {'line': at, 'event': rtr[i]['ev'][at - 1] if at <= len(rtr[i]['ev']) else None,
+                           'test': rtr[i].get('test'), 'invariant': inv1},
+                          '%s inspector trace recorded while running %s breaks the retention rule at chunk %d' % (
+                              rtr[i]['fmt'], rtr[i].get('test'), at))
+    ctx.stage('repo-test-traces', tests=rec['tests'], traces=len(rtr), events=sum(len(t['ev']) for t in rtr),
+              pytest=rec['pytest_tail'])
     # D. binding self-tests
     bad = {'fmt': 'qcow2', 'ev': [{'k': 600, 'info': [{'r': 'header', 'n': 513}]}]}
     bad2 = {'fmt': 'vhd', 'ev': [{'k': 10, 'info': [{'r': 'header', 'n': 11}]}]}
